@@ -91,6 +91,7 @@ def honest (cfg : Cfg) : Oracle TState
 inductive HolderCall where
   | transfer (to : Addr) (amt : Nat)
   | burn (amt : Nat)
+  | approve (spender : Addr) (amt : Nat)
 deriving Repr, DecidableEq
 
 /-- the token call of a holder's transaction: the new token state and the receipt's logs;
@@ -108,6 +109,12 @@ def holderCall (cfg : Cfg) (t : TState) (c holder : Addr) : HolderCall → Optio
       if r.1.status = .ok then
         some (r.2, [{ emitter := c, nTopics := 3, isTransfer := true, sender := holder, to := cfg.zero, amount := some a }])
       else none
+  | .approve sp a =>
+    -- OpenZeppelin `_approve`: reverts for the zero spender; no balance moves; one `Approval(owner, spender, value)`
+    -- log: three topics and the amount in the data, like `Transfer`, under another event id
+    if !t.hasCode c then some (t, [])
+    else if sp == cfg.zero then none
+    else some (t, [{ emitter := c, nTopics := 3, isTransfer := false, sender := holder, to := sp, amount := some a }])
 
 /-- an Ethereum transaction by `holder`: the token call, then `PostTxProcessing` on its logs;
 a reverted call fails the transaction -/
